@@ -115,8 +115,9 @@ package session
 //@   modifies s.state, everLogged, trigN, trigAt, routerStopped, timersStarted
 //@   epilogue everLogged = old(everLogged) || state == SuccessfulLogged
 //@   ensures[C06,C07,C15,C09] s.state == state && everLogged == (old(everLogged) || state == SuccessfulLogged)
-//@   ensures[C09,C15] @event imp(isEventTriggerRequired && (state == SuccessfulLogged || state == WaitingLogoutAnswer || state == ReceivedLogoutAnswer || state == Disconnect), trigN == old(trigN) + 1 && sel(trigAt, old(trigN)) == eventOf(state))
-//@   ensures[C09,C15] @noevent imp(!isEventTriggerRequired, trigN == old(trigN) && trigAt == old(trigAt))
+//@   witness eventful = isEventTriggerRequired && (state == SuccessfulLogged || state == WaitingLogoutAnswer || state == ReceivedLogoutAnswer || state == Disconnect)
+//@   ensures[C09,C15] @event imp(eventful, trigN == old(trigN) + 1 && trigAt == upd(old(trigAt), old(trigN), eventOf(state)))
+//@   ensures[C09,C15] @noevent imp(!eventful, trigN == old(trigN) && trigAt == old(trigAt))
 //@ spec eventOf(state int) int = ite(state == SuccessfulLogged, utils.EventLogon, ite(state == WaitingLogoutAnswer, utils.EventRequest, ite(state == ReceivedLogoutAnswer, utils.EventLogout, utils.EventDisconnect)))
 
 //@ func (s *Session) send(msg messages.Message) (err error)
@@ -145,8 +146,7 @@ package session
 //@   requires sessWF(s) && msg != nil && hdr(msg) != nil
 //@   requires[C07] @permitted everLogged || allowedBeforeLogon(msg)
 //@   modifies sentN, sentAt, sendFailed, clock, s.counter.*, gOut(s.counter), gIn(s.counter), hSeq(hdr(msg)), hSender(hdr(msg)), hTarget(hdr(msg)), hTime(hdr(msg))
-//@   ensures[C06,C14,C15,C16,C07] @sent imp(!sendFailed, sentN == old(sentN) + 1 && sentAt == upd(old(sentAt), old(sentN), msg))
-//@   ensures[C06,C14,C15,C16,C07] @atmost imp(sendFailed, (sentN == old(sentN) && sentAt == old(sentAt)) || old(sendFailed))
+//@   ensures[C06,C14,C15,C16,C07,C10] @sentorfailed (sentN == old(sentN) + 1 && sentAt == upd(old(sentAt), old(sentN), msg) && sendFailed == old(sendFailed)) || (sentN == old(sentN) && sentAt == old(sentAt) && sendFailed)
 //@   ensures[C06,C07] @stable s.state == old(s.state)
 
 // ---- rejects (C16) ---------------------------------------------------------------------
@@ -166,7 +166,9 @@ package session
 //@   requires sessWF(s)
 //@   modifies sentN, sentAt, sendFailed, clock, s.counter.*, gOut(s.counter), gIn(s.counter)
 //@   ensures[C16,C06,C14,C15] @one imp(!sendFailed, sentN == old(sentN) + 1 && rejectFor(s, sel(sentAt, old(sentN)), string(msg)))
-//@   ensures[C16,C06,C14,C15] @atmost imp(sendFailed, (sentN == old(sentN) && sentAt == old(sentAt)) || old(sendFailed))
+//@   ensures[C16,C06,C14,C15] @atmost imp(sendFailed && !old(sendFailed), sentN == old(sentN) && sentAt == old(sentAt))
+//@   forall j int
+//@   ensures[C16,C06,C14,C15,C10] @earlier imp(j < old(sentN), sel(sentAt, j) == old(sel(sentAt, j)))
 //@   ensures[C16] @stable s.state == old(s.state)
 
 // ---- TestRequest (C14, C16, C07) ---------------------------------------------------------
@@ -227,6 +229,9 @@ package session
 //@   modifies sentN, sentAt, sendFailed, clock, s.counter.*, gOut(s.counter), gIn(s.counter)
 //@   call GetCurrSeqNum#1: witness curr = ret0
 //@   call GetCurrSeqNum#1: witness cerr = ret1
+//@   forall j int
+//@   ensures[C10,C06] @earlier imp(j < old(sentN), sel(sentAt, j) == old(sel(sentAt, j)))
+//@   ensures[C10,C06] @bounded sentN >= old(sentN) && sentN <= old(sentN) + 1 && (sendFailed == old(sendFailed) || sendFailed)
 //@   ensures[C10] @gap imp(!sendFailed && cerr == nil && curr + 1 < hSeq(hdr(incomingLogon)), sentN == old(sentN) + 1 && mrole(sel(sentAt, old(sentN))) == 6 && mBeginSeqNo(sel(sentAt, old(sentN))) == curr + 1 && mEndSeqNo(sel(sentAt, old(sentN))) == 0)
 //@   ensures[C10,C06] @nogap imp(cerr != nil || curr + 1 >= hSeq(hdr(incomingLogon)), sentN == old(sentN) && sentAt == old(sentAt))
 //@   ensures[C06,C07] @stable s.state == old(s.state)
@@ -241,6 +246,8 @@ package session
 //@   call checkLogonParams#1: witness ptag = ret1
 //@   call LogonHandler#1: witness cberr = ret
 //@   call start#1: witness sterr = ret
+//@   call processIncSeq#1: inst j = old(sentN)
+//@   call processIncSeq#2: inst j = old(sentN)
 //@   ensures[C16] @continues ok
 //@   ensures[C16,C06] @damaged imp(!sendFailed && perr != nil, sentN == old(sentN) + 1 && rejectFor(s, sel(sentAt, old(sentN)), string(data)) && s.state == old(s.state))
 //@   ensures[C06] @accepted imp(perr == nil && old(s.state) == WaitingLogon, (s.state == SuccessfulLogged) == (pok && cberr == nil && sterr == nil))
